@@ -32,15 +32,16 @@ type c07Scenario struct {
 	Welcome     string `json:"welcome"` // none, same, new
 	Cycles      int    `json:"cycles"`
 
-	InBacklog     int    `json:"in_backlog"`  // lines queued for the client
-	InSegments    int    `json:"in_segments"` // how many reads they arrive in
-	HandlerSlowUS int    `json:"handler_slow_us"`
-	HandlerEmits  int    `json:"handler_emits"` // lines sent per handler invocation
-	HandlerAsks   bool   `json:"handler_asks"`  // handler calls Connected() and Me()
-	UserSenders   int    `json:"user_senders"`
-	UserLines     int    `json:"user_lines"`
-	ServerReads   string `json:"server_reads"` // fast, slow, none
-	FireAfter     int    `json:"fire_after"`   // disconnect after this many lines were handled (0 = at once)
+	InBacklog      int    `json:"in_backlog"`  // lines queued for the client
+	InSegments     int    `json:"in_segments"` // how many reads they arrive in
+	HandlerSlowUS  int    `json:"handler_slow_us"`
+	HandlerEmits   int    `json:"handler_emits"`   // lines sent per handler invocation
+	HandlerAsks    bool   `json:"handler_asks"`    // handler calls Connected() and Me()
+	ConnectedEmits int    `json:"connected_emits"` // lines a CONNECTED handler sends (needs a welcome line)
+	UserSenders    int    `json:"user_senders"`
+	UserLines      int    `json:"user_lines"`
+	ServerReads    string `json:"server_reads"` // fast, slow, none
+	FireAfter      int    `json:"fire_after"`   // disconnect after this many lines were handled (0 = at once)
 
 	Cause         string `json:"cause"`          // close, close3, eof, readerr, writeerr, cancel
 	ReconnectFrom string `json:"reconnect_from"` // handler, goroutine
@@ -48,21 +49,22 @@ type c07Scenario struct {
 
 func genC07(t *rapid.T) *c07Scenario {
 	sc := &c07Scenario{
-		Tracking:      rapid.Bool().Draw(t, "tracking"),
-		TrackedJoin:   rapid.IntRange(0, 2).Draw(t, "tracked_join") > 0,
-		RateLimit:     rapid.IntRange(0, envInt("VERIF_C07_RL_ONE_IN", 50)-1).Draw(t, "rate_limit") == envInt("VERIF_C07_RL_ONE_IN", 50)/2+3, // interior value: rapid favours the ends of a range
-		PingFreqMS:    rapid.SampledFrom([]int{0, 0, 3, 180000}).Draw(t, "pingfreq"),
-		Welcome:       rapid.SampledFrom([]string{"none", "same", "same", "new"}).Draw(t, "welcome"),
-		Cycles:        rapid.SampledFrom([]int{1, 1, 2, 2, 3, 5}).Draw(t, "cycles"),
-		InBacklog:     rapid.SampledFrom([]int{0, 5, 30, 70, 120, 400}).Draw(t, "in_backlog"),
-		HandlerSlowUS: rapid.SampledFrom([]int{0, 0, 50, 300}).Draw(t, "handler_slow"),
-		HandlerEmits:  rapid.SampledFrom([]int{0, 0, 1, 3, 10}).Draw(t, "handler_emits"),
-		HandlerAsks:   rapid.Bool().Draw(t, "handler_asks"),
-		UserSenders:   rapid.SampledFrom([]int{0, 0, 1, 4}).Draw(t, "user_senders"),
-		UserLines:     rapid.SampledFrom([]int{10, 80, 300}).Draw(t, "user_lines"),
-		ServerReads:   rapid.SampledFrom([]string{"fast", "fast", "slow", "none"}).Draw(t, "server_reads"),
-		Cause:         rapid.SampledFrom([]string{"close", "close3", "eof", "readerr", "writeerr", "cancel"}).Draw(t, "cause"),
-		ReconnectFrom: rapid.SampledFrom([]string{"handler", "goroutine"}).Draw(t, "reconnect_from"),
+		Tracking:       rapid.Bool().Draw(t, "tracking"),
+		TrackedJoin:    rapid.IntRange(0, 2).Draw(t, "tracked_join") > 0,
+		RateLimit:      rapid.IntRange(0, envInt("VERIF_C07_RL_ONE_IN", 50)-1).Draw(t, "rate_limit") == envInt("VERIF_C07_RL_ONE_IN", 50)/2+3, // interior value: rapid favours the ends of a range
+		PingFreqMS:     rapid.SampledFrom([]int{0, 0, 3, 180000}).Draw(t, "pingfreq"),
+		Welcome:        rapid.SampledFrom([]string{"none", "same", "same", "new"}).Draw(t, "welcome"),
+		Cycles:         rapid.SampledFrom([]int{1, 1, 2, 2, 3, 5}).Draw(t, "cycles"),
+		InBacklog:      rapid.SampledFrom([]int{0, 5, 30, 70, 120, 400}).Draw(t, "in_backlog"),
+		HandlerSlowUS:  rapid.SampledFrom([]int{0, 0, 50, 300}).Draw(t, "handler_slow"),
+		HandlerEmits:   rapid.SampledFrom([]int{0, 0, 1, 3, 10}).Draw(t, "handler_emits"),
+		HandlerAsks:    rapid.Bool().Draw(t, "handler_asks"),
+		ConnectedEmits: rapid.SampledFrom([]int{0, 0, 5, 60}).Draw(t, "connected_emits"),
+		UserSenders:    rapid.SampledFrom([]int{0, 0, 1, 4}).Draw(t, "user_senders"),
+		UserLines:      rapid.SampledFrom([]int{10, 80, 300}).Draw(t, "user_lines"),
+		ServerReads:    rapid.SampledFrom([]string{"fast", "fast", "slow", "none"}).Draw(t, "server_reads"),
+		Cause:          rapid.SampledFrom([]string{"close", "close3", "eof", "readerr", "writeerr", "cancel"}).Draw(t, "cause"),
+		ReconnectFrom:  rapid.SampledFrom([]string{"handler", "goroutine", "watchdog"}).Draw(t, "reconnect_from"),
 	}
 	if sc.InBacklog > 0 {
 		sc.InBacklog += rapid.IntRange(0, 9).Draw(t, "in_backlog_off")
@@ -77,6 +79,9 @@ func genC07(t *rapid.T) *c07Scenario {
 			sc.Cycles = envInt("VERIF_C07_RL_CYCLES", 1)
 		}
 		sc.PingFreqMS = rapid.SampledFrom([]int{0, 3}).Draw(t, "pingfreq_rl")
+		if sc.ConnectedEmits > 5 {
+			sc.ConnectedEmits = 5 // each rate-limited line costs seconds
+		}
 	}
 	return sc
 }
@@ -140,7 +145,12 @@ func runC07(sc *c07Scenario) *Violation {
 		}
 		handled.Add(1)
 	})
-	tc.C.HandleFunc(client.DISCONNECTED, func(c *client.Conn, l *client.Line) {
+	tc.C.HandleFunc(client.CONNECTED, func(c *client.Conn, l *client.Line) {
+		for i := 0; i < sc.ConnectedEmits; i++ {
+			c.Raw(fmt.Sprintf("EMIT-CONNECTED %d", i))
+		}
+	})
+	tc.C.Handle(client.DISCONNECTED, c07Disc(func(c *client.Conn, l *client.Line) {
 		stopSenders.Store(true)
 		mu.Lock()
 		discIdx = len(deliveries)
@@ -151,7 +161,7 @@ func runC07(sc *c07Scenario) *Violation {
 			reconnCh <- reconn{connect()}
 		}
 		discCh <- struct{}{}
-	})
+	}))
 	if err := connect(); err != nil {
 		return fail("first Connect: %v", err)
 	}
@@ -277,6 +287,16 @@ func runC07(sc *c07Scenario) *Violation {
 			}
 		}
 		// ---- end the connection ----
+		if cycle+1 < sc.Cycles && sc.ReconnectFrom == "watchdog" {
+			// a supervisor that reconnects the moment the client reports the connection gone - possibly
+			// while the teardown is still waiting for a slow handler
+			go func() {
+				for tc.C.Connected() {
+					time.Sleep(20 * time.Microsecond)
+				}
+				reconnCh <- reconn{connect()}
+			}()
+		}
 		closeRet := make(chan error, 4)
 		cause := sc.Cause
 		if cause == "close3" && cycle+1 < sc.Cycles {
@@ -322,6 +342,11 @@ func runC07(sc *c07Scenario) *Violation {
 			case <-time.After(bound):
 				return fail("cycle %d: a Close() call did not return within %v", cycle, bound)
 			}
+		}
+		// every handler invocation the connection started (other than DISCONNECTED's own) must be over
+		if !waitCond(bound, func() bool { return handlerGoroutines(tc.C, "") == 0 }) {
+			n := handlerGoroutines(tc.C, "")
+			return fail("cycle %d: %d handler invocation(s) of the closed connection are still running or blocked although DISCONNECTED was delivered and Close returned", cycle, n)
 		}
 		// User goroutines that were blocked in a send when the connection ended are not promised
 		// anything by the property (nobody reads a dead connection's queue); release them so that they
@@ -389,6 +414,29 @@ func runC07(sc *c07Scenario) *Violation {
 		return fail("%d DISCONNECTED events for %d connections", got, sc.Cycles)
 	}
 	return nil
+}
+
+// c07Disc is the DISCONNECTED handler as a named type, so that its invocation can be told apart in
+// a goroutine dump.
+type c07Disc func(*client.Conn, *client.Line)
+
+func (f c07Disc) Handle(c *client.Conn, l *client.Line) { f(c, l) }
+
+// handlerGoroutines counts goroutines that are inside a handler invocation (hNode.Handle) for this
+// *Conn and that run one of our own handler closures other than the DISCONNECTED one.
+func handlerGoroutines(c *client.Conn, closurePrefix string) int {
+	ptr := fmt.Sprintf("%p", c)
+	n := 0
+	for _, g := range strings.Split(goroutineDump(), "\n\n") {
+		if !strings.Contains(g, "goirc/client.(*hNode).Handle(") || !strings.Contains(g, ptr) {
+			continue
+		}
+		if strings.Contains(g, "props.c07Disc.Handle(") { // the DISCONNECTED handler (it may be reconnecting)
+			continue
+		}
+		n++
+	}
+	return n
 }
 
 // connGoroutinesSettled: exactly one send, recv, runLoop (and ping) goroutine
